@@ -19,6 +19,9 @@ use super::Final;
 use std::cell::RefCell;
 use std::sync::Arc;
 
+#[cfg(feature = "verif-shuttle")]
+use shuttle::thread_local;
+
 // Directly use the size of the precomputed TMR table to make sure they're in sync.
 const N_POWERS: usize = Tmr::TWO_TWO_N.len();
 
